@@ -22,6 +22,7 @@ Vocabulary (definitions in `StubGen.Proofs.Imports`, restated by the `…_def` t
 * `q11_RegQ env st q` — "`q` is registered or exempt in `st`" (the disjunction (b1)-(d) of `addToImports_spec`).
 -/
 import StubGen.Proofs.Imports
+import StubGen.Proofs.PathConv
 import StubGen.Proofs.Emission
 
 namespace StubGen.C11
@@ -404,13 +405,13 @@ theorem import_block_text (env : Env) (st : St) :
   ⟨q11_createImportsString_eq env st, rfl⟩
 
 /-- each line is `from <package> import <name>` for a registered dotted path `imp`: `<package>` is `imp`
-    without its last dot-segment, converted to the naming convention (`convertName`, as ONE string) and then
-    keyword-escaped segment by segment (`escapePath`); `<name>` is the last dot-segment, converted (as a
+    without its last dot-segment, converted to the naming convention segment by segment (`convertPath`, repair 8e9a214)
+    and then keyword-escaped segment by segment (`escapePath`); `<name>` is the last dot-segment, converted (as a
     non-class name) and keyword-escaped.  The model never prints an `as` clause.  The lines of the block are
     exactly the lines of the registered paths. -/
 theorem import_line_form (safe : Bool) (imports : List String) :
     (∀ imp, q11_importLine safe imp =
-        "from " ++ escapePath (convertName (joinWith "." (dropLast' (splitDot imp))) safe) ++ " import "
+        "from " ++ escapePath (convertPath (joinWith "." (dropLast' (splitDot imp))) safe) ++ " import "
           ++ escapeKeyword (convertName (lastD "" (splitDot imp)) safe))
     ∧ (∀ line, line ∈ q11_importLines safe imports ↔ ∃ imp ∈ imports, line = q11_importLine safe imp)
     ∧ (q11_importLines safe imports).length = imports.length := by
@@ -423,7 +424,7 @@ theorem import_line_without_convention (imp : String) :
     q11_importLine false imp =
       "from " ++ escapePath (joinWith "." (dropLast' (splitDot imp))) ++ " import "
         ++ escapeKeyword (lastD "" (splitDot imp)) := by
-  simp [q11_importLine, convertName]
+  simp [q11_importLine, convertName, pc_convertPath_off]
 
 /-! ### 4. foreign classes: the placeholder stub and the import line -/
 
